@@ -311,12 +311,12 @@ def _race_units():
     want = {"C01": (6, 20), "C02": (5, 16), "C03": (5, 16), "C04": (4, 14), "C05": (5, 16), "C06": (5, 16), "C09": (200, 4000),
             "C10": (40, 200), "C11": (300, 6000), "C12": (200, 4000), "C13": (4, 14), "C15": (300, 6000), "C16": (300, 6000), "C17": (4, 14), "C19": (6, 20)}
     units = []
-    for pid, (q, th) in want.items():
+    for pid, (q0, th0) in want.items():
         if pid not in CHECKS:
             continue
         for u in CHECKS[pid]["units"]:
-            if u["name"].endswith("checkpointed"):
-                continue
+            q, th = q0, th0
+            big = u["name"].endswith("checkpointed")
             if u["name"] == "bm-sched" and pid != "C03":
                 continue  # same scenarios as C03's unit
             if pid == "C13" and u["name"] not in ("enforce", "store-concurrent"):
@@ -327,6 +327,10 @@ def _race_units():
                 q, th = 4, 14  # network simulations: slow under the detector
             if u["name"] == "store-concurrent":
                 q, th = 60, 1500
+            if big:
+                # chains of 1001-2600 blocks: the checkpointed filter-header
+                # path (parallel interval queries, checkpoint disputes)
+                q, th = 2, 8
             r = dict(u)
             r["name"] = "race-" + pid.lower() + "-" + u["name"]
             r["race"] = True
@@ -341,7 +345,7 @@ def _race_units():
 CHECKS["C18"] = {
     "level": "exploration",
     "detect_race": True,
-    "rule": "the test binaries of the C01, C02, C03, C04, C05, C06, C09, C10, C11, C12, C13 (enforcement unit), C15, C16 (free-running stress unit), C17 and C19 checks are rebuilt with -race and a reduced budget of their rapid-generated executions is run (GOMAXPROCS 8, several shards); the oracle is the Go race detector: any report with a frame in neutrino code is a violation, a report between harness frames only is a harness error. evaluations = executions run under the detector; non-trivial = executions the underlying check classifies as non-trivial (the harness-scheduled block manager interleavings of C03's bm-sched unit are included; every network-simulation execution runs the block handler, the filter-header handler, the peer handlers, the query dispatcher and the harness callers concurrently); distinct = distinct case JSON per unit",
+    "rule": "the test binaries of the C01, C02, C03, C04, C05, C06, C09, C10, C11, C12, C13 (enforcement and concurrent-store units), C15, C16 (free-running stress unit), C17 and C19 checks (including the checkpointed units on chains of 1001-2600 blocks and the free-running sub-stress unit) are rebuilt with -race and a reduced budget of their rapid-generated executions is run (GOMAXPROCS 8, several shards); the oracle is the Go race detector: any report with a frame in neutrino code is a violation, a report between harness frames only is a harness error. evaluations = executions run under the detector; non-trivial = executions the underlying check classifies as non-trivial (the harness-scheduled block manager interleavings of C03's bm-sched unit are included; every network-simulation execution runs the block handler, the filter-header handler, the peer handlers, the query dispatcher and the harness callers concurrently); distinct = distinct case JSON per unit",
     "assumptions": [
         "the detector only sees races that occur in an explored execution",
         "property violations reported by the underlying checks are ignored here (they belong to those properties)",
